@@ -268,6 +268,19 @@ fn check_remove(k: usize, parents: &[usize], j: usize) {
     assert!(root_is_min(&a, &h));
 }
 
+
+/// contract row `HeapNode::new` of prelude/heap.vrs: the node wraps exactly `data` and carries no links
+#[kani::proof]
+fn node_new_wraps_data_unlinked() {
+    let x: u64 = kani::any();
+    let mut n = HeapNode::new(x);
+    assert!(node_unlinked(&n), "[C20] a new heap node is unlinked");
+    assert!(*n == x, "[C20] a new heap node wraps exactly its data");
+    let y: u64 = kani::any();
+    *n = y;
+    assert!(*n == y && node_unlinked(&n), "[C20] writing through the node changes its data only");
+}
+
 #[kani::proof]
 fn build_k0_x() {
     check_build(0, &[0]);
